@@ -211,7 +211,7 @@ def run(tier, replay=None):
             jobs.append(("argv: %r" % (av,), "argv", "argv", None, list(av)))
 
     import time
-    deadline = time.time() + (15 * 60 if quick else 75 * 60)
+    deadline = time.time() + (25 * 60 if quick else 75 * 60)
     SKIP = ("skipped-after-deadline", "")
 
     def one(item, limit=20):
